@@ -122,7 +122,7 @@ def x2(ctx, rid):
             key = 'no-yield-append-to-push|%s' % prog.fns[f.id].root
             ob = core.ok_block(f, c) or core.completion_block(f, c)
             reach = f.reach_from([ob], avoid_exit=[p.bb for p in pushes])
-            ys = [y for y in f.yields if y in reach]
+            ys = [y for y in sorted(core.real_yields(prog, f)) if y in reach]
             if ys:
                 ctx.bad(rid, key, f.where(ys[0]), 'a suspension point lies between the completed append and the index push: a future dropped there leaves a durable record the index never contains',
                         witness=['bb%d %s' % (b, f.where(b)) for b in (f.path([ob], ys, avoid_exit=[p.bb for p in pushes]) or [])])
@@ -208,7 +208,7 @@ def x4(ctx, rid):
                     kills = [i for i, b in enumerate(f.blocks) if not b['c'] and ((b['t']['k'] == 'drop' and b['t']['p'][0] == l and not b['t']['p'][1]))]
                     moved = [i for i, b in enumerate(f.blocks) if not b['c'] and any(s['k'] == 'a' and any('m' in o and o['m'][0] == l and not o['m'][1] for o in core.rvalue_operands(s['r'])) for s in b['s'])]
                     reach = f.reach_from(f.after(start) if kind == 'call' else [start], avoid_exit=kills + moved)
-                    live_y += [y for y in f.yields if y in reach]
+                    live_y += [y for y in sorted(core.real_yields(prog, f)) if y in reach]
             if live_y:
                 c0, fld = harmful[0]
                 ctx.bad(rid, key, f.where(live_y[0]), 'a guard of type %s, whose Drop does `%s` on `%s`, is live across a suspension point of a client-cancellable future: a dropped future undoes a reservation whose effects (files created, bytes written) already happened' % (adt, c0.name, fld))
